@@ -61,7 +61,6 @@ func OverlappingTemplateMatchingProto(bits []bool, m int) (p1 float64, p2 float6
 	patterns1 := make([]int, 1<<uint(m))
 	patterns2 := make([]int, 1<<uint(m-1))
 	patterns3 := make([]int, 1<<uint(m-2))
-	var Phi1, Phi2, Phi3 float64 = 0, 0, 0
 	var DPhi2, D2Phi2 float64 = 0, 0
 
 	var mask1 int = (1 << uint(m)) - 1
@@ -85,28 +84,25 @@ func OverlappingTemplateMatchingProto(bits []bool, m int) (p1 float64, p2 float6
 	}
 
 	// Step 3
+	// 平方和使用整数精确计算，避免 Phi 之间相减时的浮点抵消误差（n<=10^8, m<=7 时不会溢出 int64）。
+	var S1, S2, S3 int64 = 0, 0, 0
 	for i := 0; i <= mask1; i++ {
-		Phi1 += float64(patterns1[i]) * float64(patterns1[i])
+		S1 += int64(patterns1[i]) * int64(patterns1[i])
 	}
-	Phi1 *= float64(mask1 + 1)
-	Phi1 /= float64(n)
-	Phi1 -= float64(n)
 	for i := 0; i <= mask2; i++ {
-		Phi2 += float64(patterns2[i]) * float64(patterns2[i])
+		S2 += int64(patterns2[i]) * int64(patterns2[i])
 	}
-	Phi2 *= float64(mask2 + 1)
-	Phi2 /= float64(n)
-	Phi2 -= float64(n)
 	for i := 0; i <= mask3; i++ {
-		Phi3 += float64(patterns3[i]) * float64(patterns3[i])
+		S3 += int64(patterns3[i]) * int64(patterns3[i])
 	}
-	Phi3 *= float64(mask3 + 1)
-	Phi3 /= float64(n)
-	Phi3 -= float64(n)
+	S1 *= int64(mask1 + 1)
+	S2 *= int64(mask2 + 1)
+	S3 *= int64(mask3 + 1)
 
 	// Step 4
-	DPhi2 = Phi1 - Phi2
-	D2Phi2 = Phi1 - 2*Phi2 + Phi3
+	// Phi_m = 2^m/n * sum(v^2) - n ，差分中的 n 项相互抵消
+	DPhi2 = float64(S1-S2) / float64(n)
+	D2Phi2 = float64(S1-2*S2+S3) / float64(n)
 
 	// Step 5
 	p1 = igamc(float64(len(patterns3)), DPhi2/2.0)
